@@ -25,12 +25,16 @@ type StCase struct {
 	// N4, N6: number of listen addresses per protocol (1..3)
 	N4 int `json:"n4"`
 	N6 int `json:"n6"`
+	// Slow: the plugins' setup functions take 15 ms each, and requests are sent to the first listen
+	// address of each protocol every millisecond from before Start is called until it returns
+	Slow bool `json:"slow,omitempty"`
 }
 
 // GenSt draws a case whose plugin lists load (start-up errors are C13's TestC13)
 func GenSt(t *rapid.T) StCase {
 	c := StCase{O: GenO(t), N4: rapid.IntRange(1, 3).Draw(t, "n4"), N6: rapid.IntRange(1, 3).Draw(t, "n6")}
 	c.O.ViaYAML = false
+	c.Slow = rapid.IntRange(0, 3).Draw(t, "slow-setup") == 0
 	fix := func(l []OEntry) {
 		for i := range l {
 			if l[i].Beh == "setupfail" || l[i].Beh == "nilhandler" {
@@ -120,7 +124,98 @@ func ExecSt(c StCase) (res core.Result) {
 			conf.Server6.Addresses = append(conf.Server6.Addresses, net.UDPAddr{IP: net.IPv6loopback, Port: p})
 		}
 	}
+	ids4pre, _ := expectLoad(c.O.L4, false)
+	ids6pre, _ := expectLoad(c.O.L6, true)
+	var early *core.Violation
+	var earlyMu sync.Mutex
+	setEarly := func(v *core.Violation) {
+		earlyMu.Lock()
+		if early == nil {
+			early = v
+		}
+		earlyMu.Unlock()
+	}
+	stopProbe := make(chan struct{})
+	var pwg sync.WaitGroup
+	if c.Slow {
+		synSetupDelay.Store(int64(15 * time.Millisecond))
+		defer synSetupDelay.Store(0)
+		if c.O.Has6 {
+			_, final, wantSent := expectRun(c.O.L6, ids6pre, 6)
+			dst := conf.Server6.Addresses[0]
+			if pc, perr := net.ListenUDP("udp6", &net.UDPAddr{IP: net.IPv6loopback}); perr == nil {
+				pwg.Add(1)
+				go func() {
+					defer pwg.Done()
+					defer pc.Close()
+					buf := make([]byte, 2048)
+					for k := uint32(0); ; k++ {
+						select {
+						case <-stopProbe:
+							return
+						default:
+						}
+						m := gen.Msg6Spec{Type: gen.M6Solicit, Xid: 0x5b0000 + k&0xffff, Client: 1}
+						pc.WriteToUDP(m.Bytes(), &dst)
+						pc.SetReadDeadline(time.Now().Add(time.Millisecond))
+						if n, _, rerr := pc.ReadFromUDP(buf); rerr == nil {
+							rep, perr := dhcpv6.FromBytes(buf[:n])
+							if !wantSent || perr != nil || markers6(rep) != final {
+								setEarly(core.Violate("C13/start/answered-before-the-chain-was-in-place", "a SOLICIT sent while server.Start was still setting the plugins up (chain %v) was answered, and not by that chain: markers %q, the chain's response carries %q (sent at all: %v)", c.O.L6, func() string {
+									if perr != nil {
+										return "?"
+									}
+									return markers6(rep)
+								}(), final, wantSent))
+							}
+						}
+					}
+				}()
+			}
+		}
+		if c.O.Has4 && relay != nil {
+			_, final, wantSent := expectRun(c.O.L4, ids4pre, 4)
+			dst := conf.Server4.Addresses[0]
+			if pc, perr := net.ListenUDP("udp4", &net.UDPAddr{IP: net.IPv4(127, 0, 0, 1)}); perr == nil {
+				pwg.Add(1)
+				go func() {
+					defer pwg.Done()
+					defer pc.Close()
+					buf := make([]byte, 2048)
+					for k := uint32(0); ; k++ {
+						select {
+						case <-stopProbe:
+							return
+						default:
+						}
+						p := gen.Pkt4{Op: 1, HType: 1, HLen: 6, Xid: 0x5b400000 + k&0xffff, CHAddr: "020000000009", GIAddr: "127.0.0.1"}
+						p.Opts = []gen.Opt4{{Code: 53, Hex: "01"}}
+						pc.WriteToUDP(p.Bytes(), &dst)
+						relay.SetReadDeadline(time.Now().Add(time.Millisecond))
+						if n, _, rerr := relay.ReadFromUDP(buf); rerr == nil {
+							r, perr := dhcpv4.FromBytes(buf[:n])
+							if !wantSent || perr != nil || markers4(r) != final {
+								setEarly(core.Violate("C13/start/answered-before-the-chain-was-in-place", "a DISCOVER sent while server.Start was still setting the plugins up (chain %v) was answered, and not by that chain (the chain's response carries markers %q, sent at all: %v)", c.O.L4, final, wantSent))
+							}
+						}
+					}
+				}()
+			}
+		}
+	}
 	srv, err := server.Start(conf)
+	close(stopProbe)
+	pwg.Wait()
+	if c.Slow {
+		time.Sleep(20 * time.Millisecond) // let the server finish with the last probes
+	}
+	if early != nil {
+		if srv != nil {
+			srv.Close()
+		}
+		res.Viol = early
+		return
+	}
 	if err != nil {
 		res.Skipped = "start-failed-environment" // ports raced away etc.; start-up errors of the plugin list are TestC13's subject
 		res.Classes = []string{"start-error:" + err.Error()}
